@@ -6,9 +6,9 @@
 (* documented depth table) must satisfy the four clauses of the property;   *)
 (* with Bug # "none" TLC must find the corresponding violation.             *)
 EXTENDS CopySem
-CONSTANTS MRoutes, MOps, MClasses, MaxSteps, MaxCopies, Bug
-VARIABLES g, src, cpy, cls, route, d, nsteps, ncopies, last
-vars == <<g, src, cpy, cls, route, d, nsteps, ncopies, last>>
+CONSTANTS MRoutes, MOps, MClasses, MConfigs, MaxSteps, MaxCopies, Bug
+VARIABLES g, src, cpy, cls, conf, route, d, nsteps, ncopies, last
+vars == <<g, src, cpy, cls, conf, route, d, nsteps, ncopies, last>>
 
 Heap(k, s) == [kind |-> k, succ |-> s, dig |-> [i \in 1..Len(k) |-> 10 * i], lsucc |-> <<>>]
 TreeAnnotated == Heap(<<"Tree", "Namespace", "Taxon", "Taxon", "Node", "Edge", "Node", "Edge", "Node", "Edge",
@@ -25,14 +25,16 @@ NamespaceHeap == Heap(<<"Namespace", "Taxon", "Taxon", "AnnotationSet", "Annotat
                       << <<4, 7, 2, 3>>, <<8>>, <<>>, <<1, 5, 6>>, <<>>, <<1>>, <<>>, <<>> >>)
 Shapes == [Tree |-> {TreeAnnotated, TreeBare}, TreeList |-> {TreeListHeap}, Matrix |-> {MatrixHeap}, Namespace |-> {NamespaceHeap}]
 
-Init == /\ cls \in MClasses /\ g \in Shapes[cls]
+\* every initial graph in every object configuration that applies to its class
+Init == /\ cls \in MClasses /\ conf \in MConfigs /\ ConfApplies(cls, conf)
+        /\ g \in {ApplyConf(h, 1, conf) : h \in Shapes[cls]}
         /\ src = 1 /\ cpy = 0 /\ route = "" /\ d = "" /\ nsteps = 0 /\ ncopies = 0 /\ last = [kind |-> "init", side |-> "", op |-> ""]
 
 DoCopy(from, r) ==
-    LET c == OpCopy(g, from, cls, r, Bug) IN
+    LET c == OpCopy(g, from, cls, r, IF Bug = "locked_ns_shared" /\ conf # "ns_locked" THEN "none" ELSE Bug) IN
     /\ DepthOf(cls, r) # "Undefined"
     /\ g' = c.g /\ src' = from /\ cpy' = c.cpy /\ route' = r /\ d' = DepthOf(cls, r)
-    /\ ncopies' = ncopies + 1 /\ last' = [kind |-> "copy", side |-> "", op |-> r] /\ UNCHANGED cls
+    /\ ncopies' = ncopies + 1 /\ last' = [kind |-> "copy", side |-> "", op |-> r] /\ UNCHANGED <<cls, conf>>
 Copy(r) == ncopies = 0 /\ DoCopy(src, r) /\ UNCHANGED nsteps
 Recopy(r) == ncopies \in 1..(MaxCopies - 1) /\ nsteps < MaxSteps /\ d # "Alias" /\ DoCopy(cpy, r) /\ nsteps' = nsteps + 1
 Mutate(side, op) ==
@@ -41,7 +43,7 @@ Mutate(side, op) ==
     /\ OpTarget(g, root, op) # 0
     /\ g' = OpMutate(g, root, op)
     /\ nsteps' = nsteps + 1 /\ last' = [kind |-> "mutate", side |-> side, op |-> op]
-    /\ UNCHANGED <<src, cpy, cls, route, d, ncopies>>
+    /\ UNCHANGED <<src, cpy, cls, conf, route, d, ncopies>>
 Next == \/ \E r \in MRoutes : Copy(r)
         \/ \E r \in MRoutes : Recopy(r)
         \/ \E side \in {"src", "cpy"}, op \in MOps : Mutate(side, op)
